@@ -261,13 +261,13 @@ Definition all_small (ts : list tree) : Prop := Forall (fun T => small (ser T)) 
 Lemma all_small_app a b : all_small (a ++ b) <-> all_small a /\ all_small b.
 Proof. apply Forall_app. Qed.
 
-Lemma enc_member_refines f fields m ts :
+Lemma enc_member_opt_refines f fields m ts :
   IHf f ->
   scope_enc numeric e f (m_ty m) = true -> default_ok numeric e f m = true ->
   component e f (der_tree numeric e f) fields m = Some ts -> all_small ts ->
-  enc_member e f (fun t' v' => enc true numeric e f None t' v') fields m = Ok (concat (map ser ts)).
+  enc_member_opt e f (fun t' v' => enc true numeric e f None t' v') fields m = Ok (Some (concat (map ser ts))).
 Proof.
-  intros IH Hs Hd Hc Hsm. unfold component in Hc. unfold enc_member.
+  intros IH Hs Hd Hc Hsm. unfold component in Hc. unfold enc_member_opt.
   unfold assoc in Hc. destruct (lookup (m_name m) fields) as [v|].
   - destruct (der_tree numeric e f (m_ty m) v) as [T|] eqn:ET; [|discriminate].
     assert (Henc : all_small [T] -> enc true numeric e f None (m_ty m) v = Ok (concat (map ser [T]))).
@@ -276,14 +276,24 @@ Proof.
       inversion HsT; subst. assumption. }
     unfold default_ok in Hd.
     destruct (m_opt m) as [| |d].
-    + injection Hc as <-. apply Henc. exact Hsm.
-    + injection Hc as <-. apply Henc. exact Hsm.
+    + injection Hc as <-. rewrite (Henc Hsm). reflexivity.
+    + injection Hc as <-. rewrite (Henc Hsm). reflexivity.
     + destruct (underlying e f (m_ty m)) as [bt|]; [|discriminate].
       destruct (der_tree numeric e f (m_ty m) d) as [Td|] eqn:ETd; [|discriminate].
       rewrite (is_default_spec _ _ _ _ _ _ ET ETd). cbn [bind].
       destruct (equals_default e f (m_ty m) v d); injection Hc as <-; [reflexivity|].
-      apply Henc. exact Hsm.
+      rewrite (Henc Hsm). reflexivity.
   - destruct (m_opt m); [discriminate| |]; injection Hc as <-; reflexivity.
+Qed.
+
+Lemma enc_member_refines f fields m ts :
+  IHf f ->
+  scope_enc numeric e f (m_ty m) = true -> default_ok numeric e f m = true ->
+  component e f (der_tree numeric e f) fields m = Some ts -> all_small ts ->
+  enc_member e f (fun t' v' => enc true numeric e f None t' v') fields m = Ok (concat (map ser ts)).
+Proof.
+  intros IH Hs Hd Hc Hsm. unfold enc_member.
+  rewrite (enc_member_opt_refines f fields m ts IH Hs Hd Hc Hsm). reflexivity.
 Qed.
 
 Lemma components_refine f fields ms ts :
@@ -318,16 +328,52 @@ Proof.
       rewrite Hfil. reflexivity.
 Qed.
 
-(** all members of an addition absent and its components undefined: the
-    implementation's encode_member raises EncodeError on the first mandatory one *)
+Lemma component_shape f fields m a :
+  component e f (der_tree numeric e f) fields m = Some a -> a = [] \/ exists T, a = [T].
+Proof.
+  unfold component. destruct (assoc (m_name m) fields).
+  - destruct (der_tree numeric e f (m_ty m) v); [|discriminate].
+    destruct (m_opt m); try (intros H; injection H as <-; right; eexists; reflexivity).
+    destruct (equals_default _ _ _ _ _); intros H; injection H as <-; [left; reflexivity | right; eexists; reflexivity].
+  - destruct (m_opt m); try discriminate; intros H; injection H as <-; left; reflexivity.
+Qed.
+
+(** one addition (member or group) whose components are all defined *)
+Lemma enc_addition_refine f fields ms ts :
+  IHf f ->
+  forallb (fun m => scope_enc numeric e f (m_ty m) && default_ok numeric e f m) ms = true ->
+  components (component e f (der_tree numeric e f) fields) ms = Some ts -> all_small ts ->
+  exists parts,
+    enc_addition (enc_member_opt e f (fun t' v' => enc true numeric e f None t' v') fields) ms = Ok (Some parts) /\
+    concat parts = concat (map ser ts) /\
+    filter (fun p : list Z => match p with [] => false | _ => true end) parts = map ser ts.
+Proof.
+  intros IH. revert ts. induction ms as [|m ms IHms]; intros ts Hs Hc Hsm; cbn [components enc_addition forallb] in *.
+  - injection Hc as <-. exists []. repeat split.
+  - apply andb_prop in Hs. destruct Hs as [Hm Hs]. apply andb_prop in Hm. destruct Hm as [Hm1 Hm2].
+    destruct (component e f (der_tree numeric e f) fields m) as [a|] eqn:Ea; [|discriminate].
+    destruct (components _ ms) as [b|] eqn:Eb; [|discriminate]. injection Hc as <-.
+    apply all_small_app in Hsm. destruct Hsm as [Hsa Hsb].
+    rewrite (enc_member_opt_refines f fields m a IH Hm1 Hm2 Ea Hsa). cbn [bind].
+    destruct (IHms b Hs eq_refl Hsb) as (parts & -> & Hcat & Hfil). cbn [bind].
+    eexists. split; [reflexivity|]. cbn [concat]. rewrite map_app, concat_app, Hcat.
+    split; [reflexivity|]. cbn [filter].
+    destruct (component_shape _ _ _ _ Ea) as [-> | (T & ->)]; cbn [map concat app].
+    + exact Hfil.
+    + rewrite app_nil_r. destruct (ser T) eqn:ES; [exfalso; eapply ser_nonempty; exact ES|].
+      rewrite Hfil. reflexivity.
+Qed.
+
+(** all members of an addition absent and its components undefined: the first
+    member that is neither OPTIONAL nor DEFAULT ends the additions *)
 Lemma absent_addition_stops f fields ms :
   absent_all fields ms = true ->
   components (component e f (der_tree numeric e f) fields) ms = None ->
-  mapM (enc_member e f (fun t' v' => enc true numeric e f None t' v') fields) ms = Err EEncode.
+  enc_addition (enc_member_opt e f (fun t' v' => enc true numeric e f None t' v') fields) ms = Ok None.
 Proof.
-  induction ms as [|m ms IH]; cbn [absent_all forallb components mapM]; [discriminate|].
+  induction ms as [|m ms IH]; cbn [absent_all forallb components enc_addition]; [discriminate|].
   intros Ha Hc. apply andb_prop in Ha. destruct Ha as [Hm Ha].
-  unfold component, enc_member in *. unfold assoc in *.
+  unfold component, enc_member_opt in *. unfold assoc in *.
   destruct (lookup (m_name m) fields); [discriminate|].
   destruct (m_opt m); [reflexivity| |]; cbn [bind];
     (destruct (components _ ms); [discriminate|]; rewrite (IH Ha eq_refl); reflexivity).
@@ -338,7 +384,7 @@ Lemma additions_refine f fields adds ts :
   forallb (fun m => scope_enc numeric e f (m_ty m) && default_ok numeric e f m) (concat (map snd adds)) = true ->
   addition_components (component e f (der_tree numeric e f) fields) fields adds = Some ts -> all_small ts ->
   exists parts,
-    enc_additions (enc_member e f (fun t' v' => enc true numeric e f None t' v') fields) adds = Ok parts /\
+    enc_additions (enc_member_opt e f (fun t' v' => enc true numeric e f None t' v') fields) adds = Ok parts /\
     concat parts = concat (map ser ts) /\
     filter (fun p : list Z => match p with [] => false | _ => true end) parts = map ser ts.
 Proof.
@@ -349,13 +395,13 @@ Proof.
     destruct (components _ (snd a)) as [t1|] eqn:E1.
     + destruct (addition_components _ fields adds) as [t2|] eqn:E2; [|discriminate]. injection Hc as <-.
       apply all_small_app in Hsm. destruct Hsm as [Hsa Hsb].
-      destruct (components_refine f fields (snd a) t1 IH Hs1 E1 Hsa) as (p1 & -> & Hc1 & Hf1).
+      destruct (enc_addition_refine f fields (snd a) t1 IH Hs1 E1 Hsa) as (p1 & -> & Hc1 & Hf1).
       destruct (IHa t2 Hs2 eq_refl Hsb) as (p2 & -> & Hc2 & Hf2). cbn [bind].
       eexists. split; [reflexivity|]. rewrite concat_app, map_app, concat_app, filter_app, Hc1, Hc2, Hf1, Hf2.
       split; reflexivity.
     + destruct (absent_all fields (concat (map snd adds)) && absent_all fields (snd a)) eqn:Eab; [|discriminate].
       injection Hc as <-. apply andb_prop in Eab. destruct Eab as [_ Eab].
-      rewrite (absent_addition_stops f fields (snd a) Eab E1).
+      rewrite (absent_addition_stops f fields (snd a) Eab E1). cbn [bind].
       exists []. repeat split.
 Qed.
 
@@ -514,7 +560,7 @@ Proof.
     destruct (components_refine f fields root r IH Hsr Er Har) as (pr & -> & Hcr & Hfr). cbn [bind].
     assert (Hadd : exists pa,
                (match ext with
-                | Some adds => enc_additions (enc_member e f (fun t' v' => enc true numeric e f None t' v') fields) adds
+                | Some adds => enc_additions (enc_member_opt e f (fun t' v' => enc true numeric e f None t' v') fields) adds
                 | None => Ok []
                 end) = Ok pa /\ (concat pa = concat (map ser a)) /\
                (filter (fun p : list Z => match p with [] => false | _ => true end) pa = map ser a)).
